@@ -74,6 +74,8 @@ type ffChunk struct {
 	Events     []ffEvent
 	Acked      bool // a correct ACK was written completely
 	AckSeq     int  // trace sequence number of that ACK
+	AckTried   bool // the server decided to ACK (set, under the trace mutex, BEFORE the ACK is written: the client
+	AckTrySeq  int  // cannot have seen the ACK earlier than this point of the trace)
 	WrongAcked bool
 }
 
@@ -407,6 +409,12 @@ func (f *fakeFluentd) serve(conn net.Conn, attempt int, step ffStep) {
 				id = "0000000000000000000-99999999.ff"
 			}
 			data, _ := msgpack.Marshal(forwardprotocol.Ack{Ack: id})
+			if !wrong {
+				f.tr.mu.Lock()
+				ch.AckTried = true
+				ch.AckTrySeq = f.tr.logLocked(e2eEvent{Kind: evSrvAckTry, Output: f.name, Attempt: attempt, ChunkID: ch.ID, Chunk: ch.Index})
+				f.tr.mu.Unlock()
+			}
 			_ = conn.SetWriteDeadline(time.Now().Add(5 * time.Second))
 			if _, err := conn.Write(data); err != nil {
 				conn.Close()
